@@ -469,7 +469,10 @@ impl Sim {
                 return;
             }
             if r.code_tag != m.code_tag {
-                self.v(&["C12", "C11"], "served_by_wrong_code", format!("{}: served by code tag {} expected {}", at, r.code_tag, m.code_tag));
+                // (a reply served by another code than the dispatching contract's current one did not reach
+                // "the dispatching contract's reply entry point": C03 as well)
+                let props: &[&str] = if m.kind == "reply" { &["C12", "C11", "C03"] } else { &["C12", "C11"] };
+                self.v(props, "served_by_wrong_code", format!("{}: served by code tag {} expected {}", at, r.code_tag, m.code_tag));
             }
             if r.sender != m.sender {
                 self.v(&["C05", "C17"], "sender", format!("{}: sender {} expected {}", at, r.sender, m.sender));
